@@ -7,17 +7,21 @@ THEOREMS = ["C13_lexeme_unaffected_by_insertion", "C13_blank_insertion_same_lexe
             "C13_line_edit_same_tokens", "C13_trivia_line_no_tokens", "C13_edit_hypotheses_decidable",
             "C13_parser_ignores_locations", "C13_interpreter_ignores_locations", "C13_edits_same_program_state",
             "C13_edits_same_output", "C13_crlf_irrelevant", "C13_batch_reports", "C13_batch_report_alone",
-            "C13_batch_status", "C13_batch_permutation", "C13_batch_outputs", "C13_nonvacuous"]
+            "C13_batch_status", "C13_batch_permutation", "C13_batch_outputs", "C13_unused_binding", "C13_unused_binding_run",
+            "C13_nonvacuous"]
 MODELS = ("run",)
 RULE = ("random packet programs (lib/progs.py: every builder, tunnels, time jumps, stored packets) plus hand-written "
         "multi-line ones, and failing programs derived from them (lex, parse, name, type, import, reassign, runtime "
-        "errors inserted after some packets were emitted).  (i) every program compiled by the real binary under "
+        "errors inserted after some packets were emitted); expression statements whose value is discarded, for every kind of "
+        "value (bool, integers, string, address, socket, every class of object, function, method, constants), so that the "
+        "warnings that print values are part of the compared stdout.  (i) every program compiled by the real binary under "
         "perturbed ambient conditions: other TZ/LANG/LC_ALL/HOME + junk variables, other cwd with relative input and "
         "output paths, explicit -o names, default --color, a later run, and two runs under an LD_PRELOAD shim that "
         "fakes clock, pid, getrandom and answers every getenv with junk; (ii) the same files alone and in batches "
         "(several orders, sub-batches, failing files before/after, with and without -k); (iii) lexical edits (blank / "
         "blank-space / comment lines, trailing blank space and comments, blank space at every kind of lexeme boundary "
-        "incl. tab, CR, NEL, no-break and ideographic space, replaced blank runs, CRLF, final newline removed/added) "
+        "incl. tab, CR, NEL, no-break and ideographic space, replaced blank runs, CRLF, final newline removed/added, and - for "
+        "programs that compile - lines cut in two or joined at lexeme boundaries) "
         "and unused `let` bindings of literals.  Oracle: equality of the implementation's own outputs (sha256 of the "
         "pcap, normalised stdout, exit status) between the variants.  Non-trivial = a program that emits >= 1 packet "
         "or fails after the front end; distinct by source text")
@@ -37,13 +41,17 @@ NOTES = ["the oracle never consults the model: a violation is a pair of runs of 
          "inputs with the same file stem compile to the same output path (<out-dir>/<stem>.pcap): the later one "
          "overwrites (or, failing, deletes) the earlier one's output.  C13_batch_outputs is stated for pairwise "
          "distinct output paths; the check observes the collision (dist.same_stem_inputs) and reports it in NOTES only",
-         "C13_unused_binding is to be pinned from Proofs/C14/Unused.v (unused_plain_let_irrelevant) once that file "
-         "exists; until then unused literal bindings are covered by the differential check only",
+         "C13_unused_binding / C13_unused_binding_run are pinned from the C14 development (Proofs/C14/Unused.v "
+         "unused_plain_let_irrelevant, RunLevel.v run_unused_let): statement-list level, any library",
          "partial output kept by -k after an error: a statement is reduced when the token AFTER its ';' is fed and executed at the "
          "end of that line, so when the next line fails to lex or parse, the last complete statement before it has not "
          "run; inserting any statement (e.g. an unused let) between them lets it run, and the kept partial pcap gains its "
          "packets.  Model and binary agree on this; for failing programs the unused-let edit is therefore compared on "
          "error kind only, every other edit also on the packets written before the error",
+         "line breaks: cutting a line in two at a lexeme boundary, or joining two lines, is checked differentially on programs "
+         "that compile (edit kinds line-break-between-tokens, lines-joined); it is not among the pinned edits because "
+         "process_file executes statements line by line: with two errors in a file, which one is reported first depends on "
+         "the line structure",
          "theorem hypotheses: an edited line must be valid UTF-8; blank space only at a lexeme boundary reachable by "
          "cutting the line from its start (so not after a lex error on that line); a comment only after a line that "
          "lexes to its end, a // comment not directly after a token /"]
@@ -229,24 +237,55 @@ def ed_unused_let(r, L):
     return L
 
 
+def ed_line_break(r, L):
+    """a line cut in two at a lexeme boundary (a newline is blank space too): successful programs only"""
+    idx = [i for i, l in enumerate(L) if len(lexemes(l)[0]) >= 2 and lexemes(l)[1] == ""]
+    if not idx:
+        return None
+    L = list(L)
+    for i in sorted(r.sample(idx, min(len(idx), r.randint(1, 3))), reverse=True):
+        ls, _ = lexemes(L[i])
+        after_str = [j + 1 for j, (k, _) in enumerate(ls[:-1]) if k == "str"]
+        cuts = sorted(set(r.sample(range(1, len(ls)), min(len(ls) - 1, r.randint(1, 3)))
+                          + ([r.choice(after_str)] if after_str and r.random() < 0.6 else [])))
+        parts, prev = [], 0
+        for c in cuts + [len(ls)]:
+            parts.append("".join(t for _, t in ls[prev:c]))
+            prev = c
+        L[i:i + 1] = parts
+    return L
+
+
+def ed_line_join(r, L):
+    """two consecutive lines joined by a blank, unless the first ends in a comment: successful programs only"""
+    idx = [i for i in range(len(L) - 1) if lexemes(L[i])[1] == "" and not (lexemes(L[i])[0] and lexemes(L[i])[0][-1][0] in ("hash", "cpp"))]
+    if not idx:
+        return None
+    L = list(L)
+    for i in sorted(r.sample(idx, min(len(idx), r.randint(1, 3))), reverse=True):
+        L[i:i + 2] = [L[i] + r.choice([" ", "\t", "  "]) + L[i + 1]]
+    return L
+
+
+OK_ONLY_EDITS = {"line-break-between-tokens": ed_line_break, "lines-joined": ed_line_join}
 LINE_EDITS = {"blank-line": ed_blank_line, "blank-space-line": ed_ws_line, "comment-line": ed_comment_line,
               "trailing-blank-space": ed_trailing_ws, "trailing-comment": ed_trailing_comment,
               "blank-space-between-tokens": ed_inter_token_ws, "leading-blank-space": ed_leading_ws,
               "dense": ed_dense, "blank-run-replaced": ed_replace_ws}
 
 
-def variants(r, text, stmt_per_line, kinds_per_prog):
+def variants(r, text, stmt_per_line, kinds_per_prog, ok_program=False):
     """-> [(edit kind, new source bytes)]"""
     final_nl = text.endswith("\n")
     L = text[:-1].split("\n") if final_nl else text.split("\n")
     if text == "":
         L = []
     out = []
-    kinds = list(LINE_EDITS) + ["crlf", "final-newline", "unused-let", "combined"]
+    kinds = list(LINE_EDITS) + ["crlf", "final-newline", "unused-let", "combined"] + (list(OK_ONLY_EDITS) if ok_program else [])
     chosen = kinds if kinds_per_prog is None else r.sample(kinds, min(kinds_per_prog, len(kinds)))
     for k in chosen:
-        if k in LINE_EDITS:
-            L2 = LINE_EDITS[k](r, L)
+        if k in LINE_EDITS or k in OK_ONLY_EDITS:
+            L2 = (LINE_EDITS.get(k) or OK_ONLY_EDITS[k])(r, L)
             if L2 is not None:
                 out.append((k, join(L2, final_nl)))
         elif k == "crlf":
@@ -274,10 +313,39 @@ HAND = [
     ("import ipv4;\nipv4::udp::unicast(1.2.3.4:1,\n   1.2.3.5:2,\n   \"ab\"\n   \"cd\"\n   \"\"\n);\n", False),
     ("import ipv4; import text;\nlet f = ipv4::tcp::flow(\n  10.0.0.1:1024,\n  10.0.0.2:80\n);\nf.open();\n"
      "f.client_message(\"GET / HTTP/1.1\", text::CRLF,\n  text::CRLF);\nf.server_close();\n", False),
-    ("import ipv4;\nlet i = ipv4::icmp::flow(1.1.1.1, 2.2.2.2);\ni.echo(\"ping\"); i.echo_reply(\"ping\");\n1.2.3.4/5;\n", False),
+    ("import ipv4;\nlet i = ipv4::icmp::flow(1.1.1.1, 2.2.2.2);\ni.echo(\"ping\"); i.echo_reply(\"ping\");\nlet s = 1.2.3.4/5; s;\n", False),
+    ("import ipv4; import dns;\nlet i = ipv4::icmp::flow(1.1.1.1, 2.2.2.2);\ni.echo(\"\"); i.echo(\"\" \"\");\n"
+     "ipv4::udp::unicast(1.2.3.4:1, 1.2.3.5:2, dns::name(\"\"), \"\", dns::name(\"a\", \"\"), \"z\");\n", True),
     ("import ipv4;import dns;\nlet c=ipv4::udp::flow(9.9.9.9:53,8.8.8.8:53);c.client_dgram(dns::hdr(1,dns::opcode::QUERY,qdcount:1),"
      "dns::question(dns::name(\"a\",\"example\",\"com\"),dns::type::A,dns::class::IN));\n", True),
 ]
+
+# expression statements whose value is discarded: one warning each, printing the value (every kind of value)
+DISCARDS = ["let dq_bool = true; dq_bool;", "let dq_int = 7; dq_int;", "let dq_hex = 0xffffffffffffffff; dq_hex;",
+            "let dq_str = \"s |00 ff|\"; dq_str;", "let dq_ip = 1.2.3.4; dq_ip;", "let dq_sock = 1.2.3.4:5; dq_sock;",
+            "let dq_sock2 = 10.0.0.1/65535; dq_sock2;", "ipv4::tcp::flow;", "text::concat;", "dns::name;", "text::CRLF;",
+            "ipv4::proto::UDP;", "dns::type::AAAA;", "let dq_u = ipv4::udp::flow(1.2.3.4:1, 1.2.3.5:2); dq_u; dq_u.client_dgram;",
+            "let dq_t = ipv4::tcp::flow(1.2.3.4:1, 1.2.3.5:2); dq_t; dq_t.open; dq_t.client_message;",
+            "let dq_i = ipv4::icmp::flow(1.2.3.4, 1.2.3.5); dq_i; dq_i.echo;",
+            "let dq_g = ipv4::frag(1.2.3.4, 1.2.3.5, \"0123456789abcdef\"); dq_g; dq_g.fragment;",
+            "let dq_v = vxlan::session(1.2.3.4:1, 1.2.3.5:4789); dq_v; dq_v.encap;",
+            "let dq_r = gre::session(1.2.3.4, 1.2.3.5, 0x6558); dq_r; dq_r.encap;",
+            "let dq_e1 = erspan1::session(1.2.3.4, 1.2.3.5); dq_e1;", "let dq_e2 = erspan2::session(1.2.3.4, 1.2.3.5); dq_e2;",
+            "let dq_m = dq_mm.open;"]
+DISCARD_ALL = ("import ipv4; import time; import vxlan; import gre; import erspan1; import erspan2; import eth; import dns; import std;"
+               " import text; import io;\n" + "\n".join(DISCARDS[:-1]) + "\nlet dq_b = io::bufio(\"0123\"); dq_b; dq_b.read;\n"
+               "let dq_mm = ipv4::tcp::flow(9.9.9.9:1, 9.9.9.8:2); let dq_m = dq_mm.open; dq_m;\n")
+
+
+def add_discards(r, text):
+    """a few discarded-value statements (distinct ones) at statement boundaries of a program"""
+    L = text[:-1].split("\n")
+    nimp = sum(1 for l in L if l.startswith("import "))
+    for st in r.sample(DISCARDS[:-1], r.randint(1, 4)):
+        ok = [i for i in statement_boundaries(L) if i >= nimp]
+        L.insert(r.choice(ok), st)
+    return "\n".join(L) + "\n"
+
 
 FAILERS = {
     "lex": ["$", "let q = \"unterminated;", "ipv4 @ x;", "f(1.2.3.4:1) ~"],
@@ -304,10 +372,10 @@ def make_failing(r, text):
 
 def corpus(ctx):
     r = ctx.rng
-    n_ok = 150 if ctx.thorough else 30
-    n_bad = 150 if ctx.thorough else 30
+    n_ok = 500 if ctx.thorough else 30
+    n_bad = 500 if ctx.thorough else 30
     out = []
-    for text, spl in HAND:
+    for text, spl in HAND + [(DISCARD_ALL, True)]:
         out.append({"text": text, "spl": spl, "expect": "ok", "origin": "hand"})
     valid = []
     for i in range(n_ok):
@@ -315,6 +383,8 @@ def corpus(ctx):
         if g.files:
             continue
         text = gen.render_program(g.stmts, random.Random(r.getrandbits(32)))
+        if r.random() < 0.4:
+            text = add_discards(r, text)
         valid.append(text)
         out.append({"text": text, "spl": True, "expect": "ok", "origin": "random"})
     for i in range(n_bad):
@@ -737,12 +807,14 @@ def differs_alone(o, c, let_edit):
         d, r = common.run_programs("c13alone", {tag: cc.src}, keep=True, batch=1)
         res[tag] = r[tag]
     a, b = res["o"], res["e"]
-    if (a.status, a.kind, len(a.warnings)) != (b.status, b.kind, len(b.warnings)):
+    if (a.status, a.kind) != (b.status, b.kind):
+        return True
+    if len(a.warnings) != len(b.warnings) and not (a.status == "err" and let_edit):
         return True
     return sha(a.pcap) != sha(b.pcap) and not (a.status == "err" and let_edit)
 
 
-def lexical(ctx, ps):
+def lexical(ctx, ps, base):
     r = ctx.rng
     kinds_per_prog = None if ctx.thorough else 5
     cases, groups = [], []
@@ -750,7 +822,11 @@ def lexical(ctx, ps):
         c0 = Case()
         c0.name, c0.src, c0.files, c0.gen = p["name"] + "_o", p["text"].encode("utf-8"), {}, {"kind": "original", "prog": p["name"]}
         mine = [c0]
-        for j, (k, src) in enumerate(variants(r, p["text"], p["spl"], kinds_per_prog)):
+        compiles = base[p["name"]]["status"] == "ok"
+        vs = variants(r, p["text"], p["spl"], kinds_per_prog, compiles)
+        if p["origin"] == "hand":
+            vs = [v for _ in range(3) for v in variants(r, p["text"], p["spl"], None, compiles)]
+        for j, (k, src) in enumerate(vs):
             c = Case()
             c.name, c.src, c.files, c.gen = "%s_v%d" % (p["name"], j), src, {}, {"kind": k, "prog": p["name"]}
             mine.append(c)
@@ -773,7 +849,7 @@ def lexical(ctx, ps):
                     why = "outcome %s %s vs %s %s" % (o.impl.status, o.impl.kind, c.impl.status, c.impl.kind)
                 elif sha(c.impl.pcap) != o_sha and not (o.impl.status == "err" and "unused-let" in k):
                     why = "pcap bytes differ (%s vs %s bytes)" % (len(o.impl.pcap or b""), len(c.impl.pcap or b""))
-                elif len(c.impl.warnings) != o_w:
+                elif len(c.impl.warnings) != o_w and not (o.impl.status == "err" and "unused-let" in k):
                     why = "number of warnings %d vs %d" % (o_w, len(c.impl.warnings))
                 if why and not differs_alone(o, c, "unused-let" in k):
                     # the two sources give the same result when each is compiled by its own process: what differed is
@@ -817,7 +893,8 @@ def run(ctx):
     d = common.workdir("c13")
     write_inputs(d, ps)
     shim = build_shim(ctx)
-    ctx.dist["programs"] = {"total": len(ps), "hand_written_multi_line": len(HAND),
+    ctx.dist["programs"] = {"total": len(ps), "hand_written_multi_line": len(HAND), "with_discarded_value_warnings":
+                            sum(1 for p in ps if "dq_" in p["text"] or any(dd in p["text"] for dd in DISCARDS[7:13])),
                             "bytes_min_max": [min(len(p["text"]) for p in ps), max(len(p["text"]) for p in ps)],
                             "lines_max": max(p["text"].count("\n") for p in ps)}
     base = ambient(ctx, d, ps, shim)
@@ -836,7 +913,7 @@ def run(ctx):
                    (len(ps) - len(unexpected), len(ps)), len(unexpected) <= len(ps) // 10, " ".join(unexpected[:20]))
     sub = ps if ctx.thorough else ps[:4] + ps[4::2]
     batches(ctx, d, sub, base)
-    lexical(ctx, ps)
+    lexical(ctx, ps, base)
     ctx.sample({"program": ps[5]["text"][:400], "baseline": base[ps[5]["name"]]["lines"], "sha256": base[ps[5]["name"]]["sha"]})
     ctx.sample({"failing_program_tail": ps[-1]["text"][-200:], "baseline": base[ps[-1]["name"]]["lines"]})
     shutil.rmtree(d, ignore_errors=True)
@@ -847,6 +924,11 @@ def replay(ctx, rp):
     ctx.count("replay")
     d = common.workdir("c13r")
     shim = build_shim(ctx)
+    if "programs" in rp and str(rp.get("class", "")).startswith("ambient"):
+        ps = [{"name": n, "text": rp["programs"][n], "spl": True, "expect": "?", "origin": "replay"} for n in rp["order"]]
+        write_inputs(d, ps)
+        ambient(ctx, d, ps, shim)
+        return
     if "programs" in rp:                       # a batch replay
         ps = [{"name": n, "text": t, "spl": True, "expect": "?", "origin": "replay"} for n, t in rp["programs"].items()]
         write_inputs(d, ps)
